@@ -26,16 +26,31 @@ Qed.
 Section Heal.
 Variable tm : list (str * oid).
 
+(* two type objects carry the same name *)
+Definition same_name (m' : mem) (o o' : oid) : Prop :=
+  exists nm, tname m' o = Some nm /\ tname m' o' = Some nm.
+(* the healed reference ty' is registered, has the wrappers of ty and names
+   the type ty named *)
+Definition rkept (m' : mem) (ty ty' : tref) : Prop :=
+  reg m' tm (unwrap ty') /\ ref_wrappers ty' = ref_wrappers ty /\ same_name m' (unwrap ty) (unwrap ty').
+(* l' is obtained from l by dropping some types and replacing each of the
+   others by a type with the same name; the order is kept *)
+Inductive isub (m' : mem) : list oid -> list oid -> Prop :=
+| is_nil : isub m' [] []
+| is_drop i l' l : isub m' l' l -> isub m' l' (i :: l)
+| is_keep i' i l' l : same_name m' i i' -> isub m' l' l -> isub m' (i' :: l') (i :: l).
+Definition ikept (m' : mem) (ifs ifs' : list oid) : Prop := Forall (reg m' tm) ifs' /\ isub m' ifs' ifs.
+
 Definition heal_rel (m' : mem) (v v' : obj) : Prop :=
   match v, v' with
   | OType n k d ms ifs r ds, OType n' k' d' ms' ifs' r' ds' =>
-      n' = n /\ k' = k /\ ms' = ms /\ (ifs' = ifs \/ Forall (reg m' tm) ifs') /\
+      n' = n /\ k' = k /\ ms' = ms /\ (ifs' = ifs \/ ikept m' ifs ifs') /\
       d' = d /\ r' = r /\ ds' = ds
   | OField n py ty args d dp r sb ds, OField n' py' ty' args' d' dp' r' sb' ds' =>
-      args' = args /\ (ty' = ty \/ reg m' tm (unwrap ty')) /\
+      args' = args /\ (ty' = ty \/ rkept m' ty ty') /\
       n' = n /\ py' = py /\ d' = d /\ dp' = dp /\ r' = r /\ sb' = sb /\ ds' = ds
   | OInput a n py ty df d ds, OInput a' n' py' ty' df' d' ds' =>
-      (ty' = ty \/ reg m' tm (unwrap ty')) /\
+      (ty' = ty \/ rkept m' ty ty') /\
       a' = a /\ n' = n /\ py' = py /\ df' = df /\ d' = d /\ ds' = ds
   | OEnumV _ _ _ _ _, OEnumV _ _ _ _ _ => v' = v
   | ODir _ _ _ _, ODir _ _ _ _ => v' = v
@@ -66,20 +81,51 @@ Proof. intros He (n & Hn & Hl). exists n. split; [eapply ext_tname; eauto|assump
 Lemma Forall_reg_ext m m' l : ext m m' -> Forall (reg m tm) l -> Forall (reg m' tm) l.
 Proof. intros He. apply Forall_impl. intros a. apply reg_ext. exact He. Qed.
 
+Lemma same_name_ext m m' o o' : ext m m' -> same_name m o o' -> same_name m' o o'.
+Proof. intros He (nm & A & B). exists nm. split; eapply ext_tname; eauto. Qed.
+Lemma same_name_trans m a b c : same_name m a b -> same_name m b c -> same_name m a c.
+Proof. intros (n1 & A & B) (n2 & C & D). exists n1. split; [assumption|]. congruence. Qed.
+Lemma rkept_ext m m' ty ty' : ext m m' -> rkept m ty ty' -> rkept m' ty ty'.
+Proof. intros He (A & B & C). split; [eapply reg_ext; eauto|]. split; [assumption|eapply same_name_ext; eauto]. Qed.
+Lemma rkept_trans m ty ty' ty'' : rkept m ty ty' -> rkept m ty' ty'' -> rkept m ty ty''.
+Proof.
+  intros (A & B & C) (D & E & F). split; [assumption|]. split; [congruence|eapply same_name_trans; eauto].
+Qed.
+Lemma isub_ext m m' l' l : ext m m' -> isub m l' l -> isub m' l' l.
+Proof.
+  intros He. induction 1 as [|i l' l H IH|i' i l' l Hs H IH]; [apply is_nil|apply is_drop; assumption|].
+  apply is_keep; [eapply same_name_ext; eauto|assumption].
+Qed.
+Lemma isub_trans m : forall l'' l' l, isub m l' l -> isub m l'' l' -> isub m l'' l.
+Proof.
+  intros l'' l' l H. revert l''. induction H as [|i l' l H IH|i' i l' l Hs H IH]; intros l'' H2.
+  - exact H2.
+  - apply is_drop. apply IH. exact H2.
+  - inversion H2; subst.
+    + apply is_drop. apply IH. assumption.
+    + apply is_keep; [eapply same_name_trans; eauto|apply IH; assumption].
+Qed.
+Lemma ikept_ext m m' l l' : ext m m' -> ikept m l l' -> ikept m' l l'.
+Proof. intros He [A B]. split; [eapply Forall_reg_ext; eauto|eapply isub_ext; eauto]. Qed.
+
 Lemma heal_rel_trans m' m'' v v' v'' :
   ext m' m'' -> heal_rel m' v v' -> heal_rel m'' v' v'' -> heal_rel m'' v v''.
 Proof.
   intros He H1 H2. destruct v, v'; simpl in H1; try contradiction; destruct v''; simpl in H2; try contradiction; simpl.
   - destruct H1 as (-> & -> & -> & H1 & -> & -> & ->). destruct H2 as (-> & -> & -> & H2 & -> & -> & ->).
-    repeat split; auto. destruct H2 as [->|H2]; [|right; assumption].
-    destruct H1 as [->|H1]; [left; reflexivity|right; eapply Forall_reg_ext; eauto].
+    repeat split; auto. destruct H2 as [->|H2].
+    + destruct H1 as [->|H1]; [left; reflexivity|right; eapply ikept_ext; eauto].
+    + destruct H1 as [->|H1]; [right; assumption|]. right.
+      split; [exact (proj1 H2)|]. eapply isub_trans; [eapply isub_ext; [exact He|exact (proj2 H1)]|exact (proj2 H2)].
   - destruct H1 as (-> & H1 & -> & -> & -> & -> & -> & -> & ->).
     destruct H2 as (-> & H2 & -> & -> & -> & -> & -> & -> & ->). repeat split; auto.
-    destruct H2 as [->|H2]; [|right; assumption].
-    destruct H1 as [->|H1]; [left; reflexivity|right; eapply reg_ext; eauto].
+    destruct H2 as [->|H2].
+    + destruct H1 as [->|H1]; [left; reflexivity|right; eapply rkept_ext; eauto].
+    + destruct H1 as [->|H1]; [right; assumption|]. right. eapply rkept_trans; [eapply rkept_ext; eauto|exact H2].
   - destruct H1 as (H1 & -> & -> & -> & -> & -> & ->). destruct H2 as (H2 & -> & -> & -> & -> & -> & ->).
-    repeat split; auto. destruct H2 as [->|H2]; [|right; assumption].
-    destruct H1 as [->|H1]; [left; reflexivity|right; eapply reg_ext; eauto].
+    repeat split; auto. destruct H2 as [->|H2].
+    + destruct H1 as [->|H1]; [left; reflexivity|right; eapply rkept_ext; eauto].
+    + destruct H1 as [->|H1]; [right; assumption|]. right. eapply rkept_trans; [eapply rkept_ext; eauto|exact H2].
   - congruence.
   - congruence.
 Qed.
@@ -162,8 +208,8 @@ Proof.
   intros He H. unfold own_good in *. destruct (mget m x) as [v|] eqn:Hg; [|contradiction].
   destruct (proj2 He x v Hg) as (v' & Hg' & Hr). rewrite Hg'.
   destruct v; try contradiction; destruct v'; simpl in Hr; try contradiction.
-  - destruct Hr as (_ & [->|Hr] & _); [eapply reg_ext; eauto|assumption].
-  - destruct Hr as ([->|Hr] & _); [eapply reg_ext; eauto|assumption].
+  - destruct Hr as (_ & [->|[Hr _]] & _); [eapply reg_ext; eauto|assumption].
+  - destruct Hr as ([->|[Hr _]] & _); [eapply reg_ext; eauto|assumption].
 Qed.
 
 Lemma args_of_ext m m' x v : ext m m' -> mget m x = Some v -> args_of m' x = args_of m x.
@@ -191,7 +237,7 @@ Proof.
   assert (Hm : forall l, Forall (member_good m) l -> Forall (member_good m') l).
   { intros l. apply Forall_impl. intros a. apply member_good_ext. exact He. }
   assert (Hi : Forall (reg m tm) ifaces -> Forall (reg m' tm) ifaces0).
-  { intros Hf. destruct Hr as [->|Hr]; [eapply Forall_reg_ext; eauto|assumption]. }
+  { intros Hf. destruct Hr as [->|[Hr _]]; [eapply Forall_reg_ext; eauto|assumption]. }
   assert (Ho : forall l, Forall (own_good m) l -> Forall (own_good m') l).
   { intros l. apply Forall_impl. intros a. apply own_good_ext. exact He. }
   destruct k; auto.
@@ -281,6 +327,44 @@ Proof.
   exists n. split; [apply Hl; assumption|assumption].
 Qed.
 
+Lemma healed_kept m r r' : lookup_ok m tm -> healed m tm r = Some r' -> rkept tm m r r'.
+Proof.
+  intros Hl H. split; [eapply healed_reg; eauto|]. revert r' H.
+  induction r as [o|r IH|r IH]; intros r' H; simpl in H.
+  - destruct (tname m o) as [n|] eqn:Hn; [|discriminate].
+    destruct (alookup n tm) as [o'|] eqn:Ha; [|discriminate]. inversion H; subst r'. simpl.
+    split; [reflexivity|]. exists n. split; [assumption|apply Hl; assumption].
+  - destruct (healed m tm r) as [x|]; [|discriminate]. inversion H; subst r'. simpl.
+    destruct (IH x eq_refl) as (A & B). split; [congruence|assumption].
+  - destruct (healed m tm r) as [x|]; [|discriminate]. inversion H; subst r'. simpl.
+    destruct (IH x eq_refl) as (A & B). split; [congruence|assumption].
+Qed.
+
+Lemma same_name_write m o v v' a b :
+  mget m o = Some v -> keeps_tname v v' -> same_name m a b -> same_name (write m o v') a b.
+Proof. intros Hg Hk (nm & A & B). exists nm. split; eapply tname_write; eauto. Qed.
+
+Lemma rkept_write m o v v' ty ty' :
+  mget m o = Some v -> keeps_tname v v' -> rkept tm m ty ty' -> rkept tm (write m o v') ty ty'.
+Proof.
+  intros Hg Hk (A & B & C). split; [eapply reg_write; eauto|]. split; [assumption|eapply same_name_write; eauto].
+Qed.
+
+Lemma heal_oids_isub m l : lookup_ok m tm -> isub m (heal_oids m tm l) l.
+Proof.
+  intros Hl. induction l as [|i l IH]; simpl; [apply is_nil|].
+  unfold healed_oid. destruct (tname m i) as [n|] eqn:Hn; simpl; [|apply is_drop; exact IH].
+  destruct (alookup n tm) as [i'|] eqn:Ha; simpl; [|apply is_drop; exact IH].
+  apply is_keep; [|exact IH]. exists n. split; [assumption|apply Hl; assumption].
+Qed.
+
+Lemma isub_write m o v v' l' l :
+  mget m o = Some v -> keeps_tname v v' -> isub m l' l -> isub (write m o v') l' l.
+Proof.
+  intros Hg Hk. induction 1 as [|i l' l H IH|i' i l' l Hs H IH]; [apply is_nil|apply is_drop; assumption|].
+  apply is_keep; [eapply same_name_write; eauto|assumption].
+Qed.
+
 Lemma heal_member_spec m x m' r :
   inv m -> heal_member tm m x = Some (m', r) ->
   inv m' /\ ext tm m m' /\ m_next m' = m_next m /\
@@ -298,7 +382,8 @@ Proof.
       assert (Hreg : reg (write m x v') tm (unwrap ty')).
       { eapply reg_write; eauto; [exact I|]. eapply healed_reg; eauto. }
       assert (He : ext tm m (write m x v')).
-      { eapply ext_write; eauto. simpl. repeat split; auto. }
+      { eapply ext_write; eauto. simpl. repeat split; auto. right.
+        eapply rkept_write; [exact Hg|exact I|]. eapply healed_kept; eauto. }
       split; [split; [eapply fresh_write; eauto|eapply lookup_ok_ext; eauto]|].
       split; [exact He|]. split; [reflexivity|]. split; [reflexivity|].
       unfold own_good, args_of. rewrite mget_write, N.eqb_refl, Hg. split; [exact Hreg|reflexivity].
@@ -309,7 +394,8 @@ Proof.
       assert (Hreg : reg (write m x v') tm (unwrap ty')).
       { eapply reg_write; eauto; [exact I|]. eapply healed_reg; eauto. }
       assert (He : ext tm m (write m x v')).
-      { eapply ext_write; eauto. simpl. repeat split; auto. }
+      { eapply ext_write; eauto. simpl. repeat split; auto. right.
+        eapply rkept_write; [exact Hg|exact I|]. eapply healed_kept; eauto. }
       split; [split; [eapply fresh_write; eauto|eapply lookup_ok_ext; eauto]|].
       split; [exact He|]. split; [reflexivity|]. split; [reflexivity|].
       unfold own_good, args_of. rewrite mget_write, N.eqb_refl, Hg. split; [exact Hreg|reflexivity].
@@ -515,7 +601,8 @@ Proof.
   assert (Hreg : Forall (reg (write m y v') tm) (heal_oids m tm ifs)).
   { eapply Forall_impl; [|apply heal_oids_reg; exact Hl]. intros a. eapply reg_write; eauto. reflexivity. }
   assert (He : ext tm m (write m y v')).
-  { eapply ext_write; eauto. simpl. repeat split; auto. }
+  { eapply ext_write; eauto. simpl. repeat split; auto. right. split; [exact Hreg|].
+    eapply isub_write; [exact Hg|reflexivity|]. apply heal_oids_isub. exact Hl. }
   assert (Hiw : inv (write m y v')).
   { split; [eapply fresh_write; eauto|eapply lookup_ok_ext; eauto]. }
   assert (Hmw : members_good (write m y v') k ms) by (eapply members_good_ext; eauto).
